@@ -17,7 +17,11 @@ use string_calculator::Number;
 fn samples_f64(rng: &mut Rng, n: usize) -> Vec<f64> {
     let mut v: Vec<f64> = vec![0.0, -0.0, 1.0, -1.0, 0.5, -0.5, 2.0, -2.0, 0.25, 3.0, 10.0, 100.0, 1e-9, -1e-9, 1e9, -1e9, 0.9999999, 1.0000001, -0.9999999, 20.0, 21.0, 22.0,
                            170.0, 171.0, 150.5, -149.5, 0.36787944117144233, -0.36787944117144233, -0.3, 2.718281828459045, 3.141592653589793, 1.5707963267948966, 12.5, -7.25, 1e-300, 1e300,
-                           2.5, -2.5, 3.5, -3.5, 0.1, 4.0, 9.0, 16.0, 1000.0, 1e6, 0.7, -0.7, 4.5, 5.5, -1.5, 1.5, 6.0, 27.0, 64.0, 1e15, 123456.789];
+                           2.5, -2.5, 3.5, -3.5, 0.1, 4.0, 9.0, 16.0, 1000.0, 1e6, 0.7, -0.7, 4.5, 5.5, -1.5, 1.5, 6.0, 27.0, 64.0, 1e15, 123456.789,
+                           // neighbours of the rounding ties and of 2^52 / 2^53 (where x + 0.5 is itself rounded)
+                           0.49999999999999994, -0.49999999999999994, 0.5000000000000001, 1.4999999999999998, 2.4999999999999996, -2.4999999999999996,
+                           4503599627370495.5, 4503599627370496.0, 4503599627370497.0, -4503599627370497.0, 9007199254740991.0, 9007199254740993.0, 4503599627370495.0,
+                           1e-5, -1e-5, 1e-7, 0.99, -0.99, 1.01, 50.0, 700.0, -700.0, 355.0, 1e-3];
     for _ in 0..n {
         let r = rng.next();
         let mag = match r % 5 { 0 => 1.0, 1 => 10.0, 2 => 150.0, 3 => 1e-3, _ => 1e4 };
@@ -26,6 +30,12 @@ fn samples_f64(rng: &mut Rng, n: usize) -> Vec<f64> {
         v.push(if r % 7 == 0 { x.round() } else if r % 11 == 0 { (x * 2.0).round() / 2.0 } else { x });
     }
     v
+}
+
+/// the placeholders through which the sample x reaches evaluator e (eval_number: an integral value both as Integer and as Float)
+fn phs_of(e: &str, x: f64) -> Vec<Val> {
+    if e == "num" && x.fract() == 0.0 && x.abs() < 9e18 { return vec![Val::N(Number::Integer(x as i64)), Val::N(Number::Float(x))]; }
+    ph_of(e, x).into_iter().collect()
 }
 
 fn ph_of(e: &str, x: f64) -> Option<Val> {
@@ -60,8 +70,7 @@ pub fn replay_item(out: &mut Out, bv: &Value, rng: &mut Rng, n: usize) {
             checked_call(out, e, &text, &ph, Some(&exp), json!({"v": "accept"}), true, &ctx);
         }
         "postfix" => {
-            for x in &xs {
-                let ph = match ph_of(e, *x) { Some(p) => p, None => continue };
+            for (x, ph) in xs.iter().flat_map(|x| phs_of(e, *x).into_iter().map(move |p| (x, p))) {
                 let (text, t) = match name { "bang" => ("@!", T::Fact(Box::new(T::Ans(1)))), "deg" => ("@°", T::Deg(Box::new(T::Ans(1)))), _ => ("@rad", T::Rad(Box::new(T::Ans(1)))) };
                 let exp = expected(e, &t, &Asg::default(), &ph);
                 let o = checked_call(out, e, text, &ph, Some(&exp), json!({"v": "accept"}), true, &ctx);
@@ -79,8 +88,7 @@ pub fn replay_item(out: &mut Out, bv: &Value, rng: &mut Rng, n: usize) {
         _ => {
             let spell = name;
             if cls == "f1" {
-                for x in &xs {
-                    let ph = match ph_of(e, *x) { Some(p) => p, None => continue };
+                for (x, ph) in xs.iter().flat_map(|x| phs_of(e, *x).into_iter().map(move |p| (x, p))) {
                     let mut asg = Asg::default();
                     asg.fns.insert(1, func.to_string());
                     let t = T::Call("f1".into(), 1, vec![T::Ans(3)]);
